@@ -79,6 +79,7 @@ type propInfo struct {
 	NeedsB      bool // needs the real git-sizer binary
 	NeedsRace   bool // needs the -race binaries
 	Checks      int  // rapid checks per batch (0 = default 25); small for expensive evaluations
+	Quota       int  // rapid batches per worker that the quick tier always runs, whatever the machine's speed (see quotaFor)
 	Assumptions []string
 }
 
@@ -89,27 +90,27 @@ var commonAssumptions = []string{
 }
 
 var props = map[string]propInfo{
-	"C01": {Level: "exploration", QuickS: 20, ThoroughS: 600},
-	"C02": {Level: "exploration", QuickS: 20, ThoroughS: 600},
-	"C03": {Level: "exploration", QuickS: 20, ThoroughS: 600},
-	"C04": {Level: "exploration", QuickS: 20, ThoroughS: 600},
-	"C05": {Level: "exploration", QuickS: 20, ThoroughS: 600, Checks: 10, NeedsB: true},
-	"C06": {Level: "exploration", QuickS: 20, ThoroughS: 600},
-	"C07": {Level: "exploration", QuickS: 20, ThoroughS: 600},
-	"C08": {Level: "exploration", QuickS: 25, ThoroughS: 600},
-	"C09": {Level: "exploration", QuickS: 25, ThoroughS: 600, Checks: 10},
-	"C10": {Level: "fault_enumeration", QuickS: 30, ThoroughS: 900, NeedsB: true, Checks: 10},
-	"C11": {Level: "exploration", QuickS: 25, ThoroughS: 600, Checks: 10},
-	"C13": {Level: "exploration", QuickS: 25, ThoroughS: 600, NeedsB: true, Checks: 5},
-	"C14": {Level: "exploration", QuickS: 25, ThoroughS: 600},
-	"C15": {Level: "exploration", QuickS: 20, ThoroughS: 600},
-	"C16": {Level: "exploration", QuickS: 20, ThoroughS: 600},
-	"C17": {Level: "exploration", QuickS: 40, ThoroughS: 900, NeedsB: true, NeedsRace: true, Checks: 3},
-	"C18": {Level: "exploration", QuickS: 25, ThoroughS: 600},
-	"C19": {Level: "exploration", QuickS: 20, ThoroughS: 600, Checks: 10},
+	"C01": {Level: "exploration", QuickS: 20, ThoroughS: 600, Quota: 3},
+	"C02": {Level: "exploration", QuickS: 20, ThoroughS: 600, Quota: 3},
+	"C03": {Level: "exploration", QuickS: 20, ThoroughS: 600, Quota: 5},
+	"C04": {Level: "exploration", QuickS: 20, ThoroughS: 600, Quota: 5},
+	"C05": {Level: "exploration", QuickS: 20, ThoroughS: 600, Checks: 10, NeedsB: true, Quota: 3},
+	"C06": {Level: "exploration", QuickS: 20, ThoroughS: 600, Quota: 3},
+	"C07": {Level: "exploration", QuickS: 20, ThoroughS: 600, Quota: 4},
+	"C08": {Level: "exploration", QuickS: 25, ThoroughS: 600, Quota: 4},
+	"C09": {Level: "exploration", QuickS: 25, ThoroughS: 600, Checks: 10, Quota: 3},
+	"C10": {Level: "fault_enumeration", QuickS: 30, ThoroughS: 900, NeedsB: true, Checks: 10, Quota: 1},
+	"C11": {Level: "exploration", QuickS: 25, ThoroughS: 600, Checks: 10, Quota: 3},
+	"C13": {Level: "exploration", QuickS: 25, ThoroughS: 600, NeedsB: true, Checks: 5, Quota: 2},
+	"C14": {Level: "exploration", QuickS: 25, ThoroughS: 600, Quota: 3},
+	"C15": {Level: "exploration", QuickS: 20, ThoroughS: 600, Quota: 4},
+	"C16": {Level: "exploration", QuickS: 20, ThoroughS: 600, Quota: 7},
+	"C17": {Level: "exploration", QuickS: 40, ThoroughS: 900, NeedsB: true, NeedsRace: true, Checks: 3, Quota: 2},
+	"C18": {Level: "exploration", QuickS: 25, ThoroughS: 600, Quota: 13},
+	"C19": {Level: "exploration", QuickS: 20, ThoroughS: 600, Checks: 10, Quota: 2},
 	// self tests (not properties)
-	"determinism": {Level: "other", QuickS: 20, ThoroughS: 120},
-	"conformance": {Level: "other", QuickS: 20, ThoroughS: 120},
+	"determinism": {Level: "other", QuickS: 20, ThoroughS: 120, Quota: 1},
+	"conformance": {Level: "other", QuickS: 20, ThoroughS: 120, Quota: 3},
 }
 
 var (
@@ -137,7 +138,34 @@ func repo() string {
 
 func trouble(format string, a ...interface{}) {
 	fmt.Printf("TROUBLE: "+format+"\n", a...)
-	os.Exit(2)
+	exit(2)
+}
+
+// scratchDir: where the workers of this run materialise repositories (tmpfs
+// when there is one). Removed on every way out, so that a worker killed by a
+// watchdog leaves nothing behind.
+var scratchDir string
+
+func exit(code int) {
+	if scratchDir != "" {
+		os.RemoveAll(scratchDir)
+	}
+	os.Exit(code)
+}
+
+func makeScratch() string {
+	base := os.TempDir()
+	if st, err := os.Stat("/dev/shm"); err == nil && st.IsDir() {
+		base = "/dev/shm"
+	}
+	d, err := os.MkdirTemp(base, "vsimrun-")
+	if err != nil {
+		d, err = os.MkdirTemp("", "vsimrun-")
+		if err != nil {
+			return ""
+		}
+	}
+	return d
 }
 
 func splitmix64(x uint64) uint64 {
@@ -240,11 +268,16 @@ func build(bdir string, info propInfo, prop string) (simBin string, env []string
 	return simBin, env
 }
 
+// workerCeiling is the wall-clock ceiling of the quota part (added to the
+// hard limit after which a worker is killed).
+var workerCeiling time.Duration
+
 type workerResult struct {
 	idx   int
 	code  int
 	out   string
-	stats *stats
+	stats *stats // the part in progress when the worker ended: the continuation if quota is set, else the (unfinished) quota part
+	quota *stats // the completed quota part (stats_quota.json), if the worker got that far
 }
 
 func runWorker(simBin string, env []string, prop, tier string, seed uint64, idx, n int, budget time.Duration, out string, extra ...string) workerResult {
@@ -275,7 +308,7 @@ func runWorker(simBin string, env []string, prop, tier string, seed uint64, idx,
 	if v, perr := time.ParseDuration(os.Getenv("VERIF_LIVELOCK_LIMIT")); perr == nil && v > 0 {
 		limit = v
 	}
-	hard := time.After(budget*3 + 10*time.Minute)
+	hard := time.After(budget*3 + 10*time.Minute + workerCeiling)
 	tick := time.NewTicker(2 * time.Second)
 	defer tick.Stop()
 wait:
@@ -307,6 +340,12 @@ wait:
 		var st stats
 		if json.Unmarshal(b, &st) == nil {
 			wr.stats = &st
+		}
+	}
+	if b, err := os.ReadFile(filepath.Join(out, "stats_quota.json")); err == nil {
+		var st stats
+		if json.Unmarshal(b, &st) == nil {
+			wr.quota = &st
 		}
 	}
 	return wr
@@ -394,7 +433,12 @@ func main() {
 	if !*fKeep {
 		defer os.RemoveAll(bdir)
 	}
+	scratchDir = makeScratch()
+	defer os.RemoveAll(scratchDir)
 	simBin, env := build(bdir, info, prop)
+	if scratchDir != "" {
+		env = append(env, "VERIF_SCRATCH="+scratchDir)
+	}
 	buildS := time.Since(start).Seconds()
 
 	if *fReplay != "" {
@@ -405,12 +449,12 @@ func main() {
 			fmt.Printf("%s\n", tail(log, 60))
 			fmt.Printf("VIOLATION property=%s replay=%s\n", prop, path)
 			os.RemoveAll(bdir)
-			os.Exit(1)
+			exit(1)
 		case class != "":
 			fmt.Printf("%s\n", tail(log, 30))
 			fmt.Printf("VIOLATION property=%s replay=%s\n", prop, path)
 			os.RemoveAll(bdir)
-			os.Exit(1)
+			exit(1)
 		}
 		fmt.Printf("replay clean: %s\n", path)
 		return
@@ -420,54 +464,45 @@ func main() {
 		determinism(simBin, env, bdir, tier, seed)
 		return
 	}
-	fmt.Printf("simcheck property=%s tier=%s seed=%d workers=%d budget=%ds (build %.1fs)\n", prop, tier, seed, nw, budgetS, buildS)
-	var wg sync.WaitGroup
+	quota, quotaCap := quotaFor(info, tier, budgetS)
+	fmt.Printf("simcheck property=%s tier=%s seed=%d workers=%d quota=%d batches/worker budget=%ds (build %.1fs)\n", prop, tier, seed, nw, quota, budgetS, buildS)
+	searchStart := time.Now()
+	workerCeiling = quotaCap
 	results := make([]workerResult, nw)
-	for i := 0; i < nw; i++ {
-		wg.Add(1)
-		go func(i int) {
-			defer wg.Done()
-			ws := splitmix64(seed*0x9e3779b1 + uint64(i))
-			var extra []string
-			if info.Checks > 0 {
-				extra = append(extra, fmt.Sprintf("-verif.checks=%d", info.Checks))
-			}
-			results[i] = runWorker(simBin, env, prop, tier, ws, i, nw, time.Duration(budgetS)*time.Second, filepath.Join(bdir, fmt.Sprintf("w%d", i)), extra...)
-		}(i)
+	{
+		var wg sync.WaitGroup
+		for i := 0; i < nw; i++ {
+			wg.Add(1)
+			go func(i int) {
+				defer wg.Done()
+				ws := splitmix64(seed*0x9e3779b1 + uint64(i))
+				extra := []string{fmt.Sprintf("-verif.quota=%d", quota), "-verif.ceiling=" + quotaCap.String()}
+				if info.Checks > 0 {
+					extra = append(extra, fmt.Sprintf("-verif.checks=%d", info.Checks))
+				}
+				results[i] = runWorker(simBin, env, prop, tier, ws, i, nw, time.Duration(budgetS)*time.Second, filepath.Join(bdir, fmt.Sprintf("w%d", i)), extra...)
+			}(i)
+		}
+		wg.Wait()
 	}
-	wg.Wait()
 
-	// aggregate
-	agg := &stats{Nontrivial: map[string]bool{}, Sigs: map[string]bool{}, FaultsFired: map[string]int{}, Probes: map[string]int{},
-		Conformance: map[string]int{}, Known: map[string]int{}, KnownNotes: map[string]string{}, Exhaustive: map[string]bool{}, Extra: map[string]float64{}}
-	var seeds []uint64
-	hard := []string{}
 	type cand struct {
 		file  string
 		class string
 	}
 	var cands []cand
-	for _, r := range results {
-		if r.stats == nil {
-			// crashed before writing stats?
-			cur := filepath.Join(r.out, "current.json")
-			if _, err := os.Stat(cur); err == nil && r.code == -3 {
-				// livelock: the scenario under way is the violation
-				cands = append(cands, cand{cur, prop + "/hang"})
-			} else if err == nil && r.code == 2 {
-				cands = append(cands, cand{cur, prop + "/crash"})
-			} else {
-				hard = append(hard, fmt.Sprintf("worker %d exited %d without stats (see %s/log)", r.idx, r.code, r.out))
-			}
-			continue
-		}
-		s := r.stats
+	hard := []string{}
+	var seeds []uint64
+	newAgg := func() *stats {
+		return &stats{Nontrivial: map[string]bool{}, Sigs: map[string]bool{}, FaultsFired: map[string]int{}, Probes: map[string]int{},
+			Conformance: map[string]int{}, Known: map[string]int{}, KnownNotes: map[string]string{}, Exhaustive: map[string]bool{}, Extra: map[string]float64{}}
+	}
+	add := func(agg, s *stats) {
 		agg.Rule, agg.Components = s.Rule, s.Components
 		agg.Batches += s.Batches
 		agg.Evaluations += s.Evaluations
 		agg.CLIRuns += s.CLIRuns
 		agg.SimNS += s.SimNS
-		seeds = append(seeds, s.Seed)
 		for k := range s.Nontrivial {
 			agg.Nontrivial[k] = true
 		}
@@ -504,10 +539,52 @@ func main() {
 		for _, v := range s.Violations {
 			cands = append(cands, cand{v.File, v.Class})
 		}
+	}
+
+	// The quota part of a worker is stats_quota.json when it completed the quota
+	// (what it did afterwards, the continuation, is then in stats.json), and
+	// stats.json when it did not (ceiling reached, or something found).
+	agg := newAgg()
+	beyond := newAgg()
+	quotaDone := true
+	quotaWall := 0.0
+	for _, r := range results {
+		if r.stats == nil {
+			quotaDone = false
+			// crashed before writing stats?
+			cur := filepath.Join(r.out, "current.json")
+			if _, err := os.Stat(cur); err == nil && r.code == -3 {
+				// livelock: the scenario under way is the violation
+				cands = append(cands, cand{cur, prop + "/hang"})
+			} else if err == nil && r.code == 2 {
+				cands = append(cands, cand{cur, prop + "/crash"})
+			} else {
+				hard = append(hard, fmt.Sprintf("worker %d exited %d without stats (see %s/log)", r.idx, r.code, r.out))
+			}
+			if r.quota != nil {
+				add(agg, r.quota)
+			}
+			continue
+		}
+		seeds = append(seeds, r.stats.Seed)
+		nviol := len(r.stats.Violations)
+		if r.quota != nil {
+			add(agg, r.quota)
+			add(beyond, r.stats)
+			if r.quota.WallS > quotaWall {
+				quotaWall = r.quota.WallS
+			}
+		} else {
+			add(agg, r.stats)
+			quotaDone = false
+			if r.stats.WallS > quotaWall {
+				quotaWall = r.stats.WallS
+			}
+		}
 		if r.code == -3 {
 			// livelock: the scenario under way is the violation
 			cands = append(cands, cand{filepath.Join(r.out, "current.json"), prop + "/hang"})
-		} else if r.code != 0 && len(s.Violations) == 0 {
+		} else if r.code != 0 && nviol == 0 {
 			cur := filepath.Join(r.out, "current.json")
 			// a Go panic or fatal error exits with status 2; a worker killed from
 			// outside (signal) is trouble with the machinery, not a crash of the code under test
@@ -520,6 +597,21 @@ func main() {
 				}
 			}
 		}
+	}
+	// known findings met and notes: both parts
+	for k, v := range beyond.Known {
+		agg.Known[k] += v
+	}
+	for k, v := range beyond.KnownNotes {
+		if _, ok := agg.KnownNotes[k]; !ok {
+			agg.KnownNotes[k] = v
+		}
+	}
+	agg.Trouble = append(agg.Trouble, beyond.Trouble...)
+	beyondBudget := float64(budgetS) - quotaWall
+	if beyond.Batches == 0 {
+		beyond = nil
+		beyondBudget = 0
 	}
 
 	// confirm violations by replay in a fresh process
@@ -575,10 +667,19 @@ func main() {
 	}
 
 	wall := time.Since(start).Seconds()
-	writeEvidence(prop, tier, seed, info, agg, seeds, violations, wall, float64(budgetS), nw, hard)
+	searchWall := time.Since(searchStart).Seconds()
+	qi := quotaInfo{Batches: quota, Done: quotaDone, WallS: quotaWall, CeilingS: quotaCap.Seconds(), Beyond: beyond, BeyondBudgetS: beyondBudget, SearchWallS: searchWall}
+	writeEvidence(prop, tier, seed, info, agg, seeds, violations, wall, float64(budgetS), nw, hard, qi)
 
-	fmt.Printf("evaluations=%d cli_runs=%d distinct_nontrivial=%d interleavings=%d sim_time=%.1fs faults=%v probes=%v wall=%.1fs\n",
-		agg.Evaluations, agg.CLIRuns, len(agg.Nontrivial), len(agg.Sigs), float64(agg.SimNS)/1e9, agg.FaultsFired, agg.Probes, wall)
+	fmt.Printf("quota part (%d batches/worker, complete=%v, %.1fs): evaluations=%d cli_runs=%d distinct_nontrivial=%d interleavings=%d sim_time=%.1fs faults=%v probes=%v\n",
+		quota, quotaDone, quotaWall, agg.Evaluations, agg.CLIRuns, len(agg.Nontrivial), len(agg.Sigs), float64(agg.SimNS)/1e9, agg.FaultsFired, agg.Probes)
+	if beyond != nil {
+		fmt.Printf("continuation (each worker's rest of the time budget; %.1fs for the slowest): evaluations=%d cli_runs=%d distinct_nontrivial=%d interleavings=%d sim_time=%.1fs faults=%v\n",
+			beyondBudget, beyond.Evaluations, beyond.CLIRuns, len(beyond.Nontrivial), len(beyond.Sigs), float64(beyond.SimNS)/1e9, beyond.FaultsFired)
+	} else {
+		fmt.Printf("continuation: not run (the quota part used up the time budget, or it found something)\n")
+	}
+	fmt.Printf("wall=%.1fs\n", wall)
 	if len(agg.Trouble) > 0 {
 		fmt.Printf("notes (%d), first: %s\n", len(agg.Trouble), firstN(agg.Trouble[0], 300))
 	}
@@ -589,7 +690,7 @@ func main() {
 		if !*fKeep {
 			os.RemoveAll(bdir)
 		}
-		os.Exit(1)
+		exit(1)
 	}
 	if len(hard) > 0 {
 		for _, h := range hard {
@@ -598,7 +699,7 @@ func main() {
 		if !*fKeep {
 			os.RemoveAll(bdir)
 		}
-		os.Exit(2)
+		exit(2)
 	}
 	if agg.Evaluations == 0 {
 		if !*fKeep {
@@ -639,7 +740,41 @@ func firstN(s string, n int) string {
 	return s
 }
 
-func writeEvidence(prop, tier string, seed uint64, info propInfo, agg *stats, seeds []uint64, violations int, wall, budget float64, nw int, hard []string) {
+// quotaFor returns how many rapid batches every worker always runs and the
+// wall-clock ceiling of that part. The quota is sized so that it takes about
+// a quarter of the tier's time budget on the 16-core sandbox the checks were
+// developed on; a machine (or a moment) ten times slower still completes it.
+func quotaFor(info propInfo, tier string, budgetS int) (int, time.Duration) {
+	q := info.Quota
+	if q <= 0 {
+		q = 1
+	}
+	if s := os.Getenv("VERIF_QUOTA"); s != "" {
+		if v, err := strconv.Atoi(s); err == nil && v > 0 {
+			q = v
+		}
+	}
+	if tier == "thorough" {
+		return q * 8, time.Duration(3*budgetS) * time.Second
+	}
+	ceiling := 10 * budgetS
+	if ceiling < 300 {
+		ceiling = 300
+	}
+	return q, time.Duration(ceiling) * time.Second
+}
+
+type quotaInfo struct {
+	Batches       int
+	Done          bool
+	WallS         float64
+	CeilingS      float64
+	Beyond        *stats
+	BeyondBudgetS float64
+	SearchWallS   float64
+}
+
+func writeEvidence(prop, tier string, seed uint64, info propInfo, agg *stats, seeds []uint64, violations int, wall, budget float64, nw int, hard []string, qi quotaInfo) {
 	samples := []interface{}{}
 	for _, s := range agg.Samples {
 		var v interface{}
@@ -651,18 +786,58 @@ func writeEvidence(prop, tier string, seed uint64, info propInfo, agg *stats, se
 		samples = append(samples, "no sample recorded")
 	}
 	sort.Slice(seeds, func(i, j int) bool { return seeds[i] < seeds[j] })
-	perHour := 0.0
-	if budget > 0 {
-		perHour = float64(agg.Evaluations) / budget * 3600
+	// rates: everything this run evaluated (quota part and continuation) over
+	// the wall-clock time of the search; they depend on the machine
+	allEvals, allBatches := agg.Evaluations, agg.Batches
+	if qi.Beyond != nil {
+		allEvals += qi.Beyond.Evaluations
+		allBatches += qi.Beyond.Batches
+	}
+	perHour, seedsPerHour := 0.0, 0.0
+	if qi.SearchWallS > 0 {
+		perHour = float64(allEvals) / qi.SearchWallS * 3600
+		seedsPerHour = float64(allBatches) / qi.SearchWallS * 3600
+	}
+	beyond := map[string]interface{}{
+		"ran":    false,
+		"reason": "in every worker the quota part used up the time budget (or found something)",
+	}
+	if qi.Beyond != nil {
+		b := qi.Beyond
+		beyond = map[string]interface{}{
+			"ran":                                true,
+			"how_long":                           "every worker goes on after its quota until the time budget, counted from its own start, is used up",
+			"time_left_for_the_slowest_worker_s": qi.BeyondBudgetS,
+			"rapid_batches":                      b.Batches,
+			"evaluations":                        b.Evaluations,
+			"cli_runs":                           b.CLIRuns,
+			"distinct_nontrivial":                len(b.Nontrivial),
+			"distinct_interleavings":             len(b.Sigs),
+			"simulated_time_s":                   float64(b.SimNS) / 1e9,
+			"faults_fired":                       b.FaultsFired,
+			"probes":                             b.Probes,
+			"conformance":                        b.Conformance,
+			"extra":                              b.Extra,
+		}
 	}
 	cov := map[string]interface{}{
-		"evaluations":            agg.Evaluations,
-		"distinct_nontrivial":    len(agg.Nontrivial),
-		"rule":                   agg.Rule,
-		"samples":                samples,
-		"cli_runs":               agg.CLIRuns,
-		"runs_per_hour":          int64(perHour),
-		"seeds_per_hour":         int64(float64(agg.Batches) / budget * 3600),
+		"evaluations":         agg.Evaluations,
+		"distinct_nontrivial": len(agg.Nontrivial),
+		"rule":                agg.Rule,
+		"samples":             samples,
+		"cli_runs":            agg.CLIRuns,
+		"runs_per_hour":       int64(perHour),
+		"seeds_per_hour":      int64(seedsPerHour),
+		"rates_note":          "runs_per_hour and seeds_per_hour are measured over the quota part and the continuation together, on this machine",
+		"time_budget_s":       budget,
+		"quota": map[string]interface{}{
+			"rapid_batches_per_worker": qi.Batches,
+			"completed":                qi.Done,
+			"wall_s_slowest_worker":    qi.WallS,
+			"ceiling_s":                qi.CeilingS,
+			"note":                     "evaluations, distinct_nontrivial, cli_runs, rapid_batches, simulated_time_s, distinct_interleavings, faults_fired, probes, conformance and extra above count the quota part only: a fixed number of rapid batches per worker whose seeds derive from (VERIF_SEED, worker, batch index), so the same scenarios are explored on a fast and on a slow machine (wall-clock entries in extra excepted). What the rest of the time budget added on this machine is under beyond_quota.",
+		},
+		"beyond_quota":           beyond,
 		"seed_note":              "one seed = one rapid batch seed derived from (VERIF_SEED, worker, batch); rapid_batches of them were explored, each an exactly repeatable sequence of scenarios",
 		"worker_seeds":           seeds,
 		"rapid_batches":          agg.Batches,
@@ -820,6 +995,6 @@ func determinism(simBin string, env []string, bdir, tier string, seed uint64) {
 	os.MkdirAll(filepath.Join(home(), "evidence"), 0o755)
 	os.WriteFile(filepath.Join(home(), "evidence", "selftest-determinism.json"), b, 0o644)
 	if bad > 0 {
-		os.Exit(2)
+		exit(2)
 	}
 }
